@@ -288,7 +288,13 @@ impl Primitive {
     pub fn as_integer_cast(&self) -> Result<i64, TransformError> {
         match self {
             Primitive::Integer(n) => Ok(*n),
-            Primitive::PositiveInteger(n) => Ok(*n as i64),
+            //`as i64` would wrap silently from 2^63 on (0..2^63 would be an empty range)
+            Primitive::PositiveInteger(n) => i64::try_from(*n).map_err(|_| {
+                TransformError::Other(format!(
+                    "the value {} does not fit a signed 64 bit integer",
+                    n
+                ))
+            }),
             Primitive::Boolean(b) => Ok(*b as u8 as i64),
             Primitive::Number(n) => {
                 if float_ne(n.fract(), 0.0) {
